@@ -62,7 +62,9 @@ def sibling(ctx):
              'agree: same registrations (compdb minus reasoned exemptions), '
              'same dependency roots, same tool-call keywords, same flag '
              'components, same input transformation, same command/'
-             'environment expression (all as value-flow facts)')
+             'environment expression (all as value-flow facts); compdb path '
+             'text comes from the same realisation (string()), not the raw '
+             'suffix')
     repo = ctx.repo
     F = _facts(ctx)
     reg = G.Registry(repo)
